@@ -37,6 +37,7 @@ type step struct {
 	DryRun     bool
 	Files      []tfile
 	Order      string // "" (linear) | linear-skip | non-linear: --exec-order (round 5)
+	KillSQL    string // round 5: "<regex>@<n>:before|after" -> VERIF_SQL_KILL through the sqlitekill:// scheme of the verif build
 	// round 4 (storage contract): run through the sqlitefault:// scheme of the verif build
 	UseFault bool   // log the statements that reach the driver (VERIF_SQL_LOG)
 	Fault    string // "r@n" / "w@n": the n-th read / write of atlas_schema_revisions fails with "database is locked"
@@ -210,6 +211,9 @@ func runScenarioX(steps []step, setup []string, probe []string) ([]obs, error) {
 			scheme = "sqlitefault://"
 			os.Remove(sqllog)
 		}
+		if s.KillSQL != "" {
+			scheme = "sqlitekill://"
+		}
 		args = append(args, "--dir", "file://"+mdir, "--url", scheme+db, "--tx-mode", s.Mode, "--allow-dirty")
 		if s.DryRun {
 			args = append(args, "--dry-run")
@@ -220,6 +224,9 @@ func runScenarioX(steps []step, setup []string, probe []string) ([]obs, error) {
 		var env []string
 		if s.CrashPoint != "" {
 			env = append(env, fmt.Sprintf("VERIF_CRASH_AT=%s:%d", s.CrashPoint, s.CrashK))
+		}
+		if s.KillSQL != "" {
+			env = append(env, "VERIF_SQL_KILL="+s.KillSQL)
 		}
 		if s.UseFault {
 			env = append(env, "VERIF_SQL_LOG="+sqllog)
@@ -344,6 +351,13 @@ func main() {
 	if *outDir == "" {
 		fmt.Fprintln(os.Stderr, "missing -out")
 		os.Exit(2)
+	}
+	if *mode == "gen" {
+		if err := genCrashPoints(*outDir); err != nil {
+			fmt.Fprintln(os.Stderr, "gen:", err)
+			os.Exit(1)
+		}
+		return
 	}
 	if _, err := os.Stat(clirun.Bin()); err != nil {
 		fmt.Fprintln(os.Stderr, "atlas binary not found:", clirun.Bin())
@@ -502,6 +516,8 @@ func genC10(w *out.W, tier string, mu *sync.Mutex) []job {
 	jobs = append(jobs, big...)
 	jobs = append(jobs, genC10Store(w, tier, mu)...)
 	jobs = append(jobs, genC10Order(w, tier)...)
+	jobs = append(jobs, genC10SQLKill(w, tier)...)
+	censusCheck(w, jobs)
 	return jobs
 }
 
